@@ -18,7 +18,10 @@ package main
 //	proof <b> <slot>             GetBlockProof(b), VerifyBlockProof on a fresh trie; kept in <slot>
 //	                                                                       -> ok <key> n=<len> d=<digest> r=<root> v=<val>
 //	tamper <slot> <b> <class> …  tamper with the proof in <slot>, verify for block b   -> ok <root> <val> | err | skip
-//	saveroot <lvl>               SaveRoot(); checkpoint copy = CopyRoot(lvl) (lvl = -2: NewHashNode(root, weight))
+//	saveroot <lvl>               SaveRoot(); checkpoint copy = CopyRoot(lvl) (lvl = -2: NewHashNode(root, weight), nil when empty;
+//	                             -3: NewHashNode(root, weight) also when empty)
+//	cproot <lvl>                 the checkpoint copy alone, without SaveRoot()             -> ok
+//	recopy <lvl>                 New(t.CopyRoot(lvl), same storage)                          -> ok
 //	rollback                     Rollback()                                -> ok r=<root> w=<weight> <storage ops>
 //	rollbacktrie                 RollbackTrie(checkpoint copy)             -> ok r=<root> w=<weight> <storage ops>
 //	getpath <k1,k2,…|->          GetPath(keys)                             -> ok n=<len> d=<digest> | <err>
@@ -617,16 +620,35 @@ func (x *wrun) step1(i int, f []string) string {
 		return x.opProof(i, u64(f[1]), atoi(f[2]))
 	case "tamper":
 		return x.opTamper(i, f)
-	case "saveroot":
+	case "recopy":
+		// New(t.CopyRoot(lvl), same storage): a trie opened on a copy of the committed root
 		lvl := atoi(f[1])
 		out := guard(func() string {
-			x.t.SaveRoot()
+			x.t = wmpt.New(x.t.CopyRoot(lvl), x.st)
+			return "ok"
+		})
+		x.live = x.committed.clone()
+		x.changed = nil
+		x.dirty, x.hashedDirty = false, false
+		x.cp = nil
+		x.tags["recopy"] = true
+		return out
+	case "saveroot", "cproot":
+		lvl := atoi(f[1])
+		out := guard(func() string {
+			if f[0] == "saveroot" {
+				x.t.SaveRoot()
+			} else {
+				x.tags["checkpoint-without-saveroot"] = true
+			}
 			cp := &wcheckpoint{root: x.croot, weight: x.cweight, content: x.committed.clone(), nodes: map[string]bool{}, keysThen: x.st.keys()}
 			canonRootW(cp.content, cp.nodes)
 			if lvl == -2 {
 				if cp.weight > 0 {
 					cp.node = wmpt.NewHashNode(append([]byte(nil), cp.root...), cp.weight)
 				}
+			} else if lvl == -3 {
+				cp.node = wmpt.NewHashNode(append([]byte(nil), cp.root...), cp.weight) // also for the empty checkpoint (weight 0)
 			} else {
 				cp.node = x.t.CopyRoot(lvl)
 			}
